@@ -33,6 +33,9 @@ def run_case(df, meta):
     # both documented spellings of the Gaussian family are exercised ('gaussian' and its alias 'normal')
     dist = {'binary': None, 'normal': ('gaussian' if meta['n'] % 2 else 'normal'), 'poisson': 'poisson'}[otype]
     satL, satAL = meta['sat_L'], meta['sat_AL']
+    miss = bool(meta.get('missing'))
+    pk = ec.should_poke(df) or miss      # displays / diagnostics / plots called before and after fit() on half the cases
+    out['poked'] = pk
 
     def guard(name, fn):
         try:
@@ -44,10 +47,18 @@ def run_case(df, meta):
         res = {}
         for stab in (False, True):
             for std, _ in TARGETS:
-                ip = IPTW(df, 'A', 'Y', standardize=std)
+                dfc = df.copy()
+                ip = IPTW(dfc, 'A', 'Y', standardize=std)
+                ec.scramble(dfc)     # the caller's own frame changes after construction
                 ip.treatment_model(satL, stabilized=stab, print_results=False)
+                if miss:
+                    ip.missing_model(satAL, stabilized=False, print_results=False)
                 ip.marginal_structural_model('A')
+                if pk:
+                    ec.poke(ip)
                 ip.fit(continuous_distribution=dist) if dist else ip.fit()
+                if pk:
+                    ec.poke(ip)
                 if otype == 'binary':
                     est = {'rd': float(ip.risk_difference['RD'].iloc[1]), 'rr': float(ip.risk_ratio['RR'].iloc[1]),
                            'or': float(ip.odds_ratio['OR'].iloc[1]), 'mu0': float(ip.risk_difference['RD'].iloc[0])}
@@ -60,6 +71,9 @@ def run_case(df, meta):
                     est = {'mu0': math.exp(b0), 'mu1': math.exp(b0 + b1)}
                 res[(stab, std)] = est
                 if not stab and std == 'population':
+                    if miss:     # Pr(outcome observed | A received, L) as the fitted missing model has it (1 where unobserved: unused)
+                        w = np.asarray(ip.ipmw, dtype=float)
+                        out['iptw_m'] = np.where(np.isnan(w), 1.0, 1.0 / w)
                     out['iptw_g'] = np.asarray(ip.df['__denom__'], dtype=float)
                     out['S'] = np.asarray(ip.df['S'])
                     out['A'] = np.asarray(ip.df['A'])
@@ -71,9 +85,15 @@ def run_case(df, meta):
     def gform():
         res = {}
         for std, _ in TARGETS:
-            g = TimeFixedGFormula(df, 'A', 'Y', outcome_type=otype, standardize=std)
+            dfc = df.copy()
+            g = TimeFixedGFormula(dfc, 'A', 'Y', outcome_type=otype, standardize=std)
+            ec.scramble(dfc)
             g.outcome_model(satAL, print_results=False)
+            if pk:
+                ec.poke(g)
             g.fit('all')
+            if pk:
+                ec.poke(g)
             r1 = float(g.marginal_outcome)
             if std == 'population':
                 out['gf_q1'] = np.asarray(g.predicted_df['Y'], dtype=float)
@@ -85,13 +105,19 @@ def run_case(df, meta):
         out['gf'] = res
 
     def aiptw():
-        ai = AIPTW(df, 'A', 'Y')
+        dfc = df.copy()
+        ai = AIPTW(dfc, 'A', 'Y')
+        ec.scramble(dfc)
         ai.exposure_model(satL, print_results=False)
         if dist:
             ai.outcome_model(satAL, continuous_distribution=dist, print_results=False)
         else:
             ai.outcome_model(satAL, print_results=False)
+        if pk:
+            ec.poke(ai)
         ai.fit()
+        if pk:
+            ec.poke(ai)
         out['aipw_g'] = np.asarray(ai.df['_g1_'], dtype=float)
         out['aipw_q1'] = np.asarray(ai.df['_pY1_'], dtype=float)
         out['aipw_q0'] = np.asarray(ai.df['_pY0_'], dtype=float)
@@ -105,10 +131,18 @@ def run_case(df, meta):
             return
         # continuous_bound (default 0.0005) deliberately moves the extreme outcomes inwards; the identity is
         # about the estimator without that documented truncation, so it is set to a value nothing reaches
-        tm = TMLE(df, 'A', 'Y', continuous_bound=1e-10) if otype != 'binary' else TMLE(df, 'A', 'Y')
+        dfc = df.copy()
+        tm = TMLE(dfc, 'A', 'Y', continuous_bound=1e-10) if otype != 'binary' else TMLE(dfc, 'A', 'Y')
+        ec.scramble(dfc)
         tm.exposure_model(satL, print_results=False)
+        if miss:
+            tm.missing_model(satAL, print_results=False)
         tm.outcome_model(satAL, print_results=False)
+        if pk:
+            ec.poke(tm)
         tm.fit()
+        if pk:
+            ec.poke(tm)
         pr = tm._verif_probe_
         if otype == 'binary':
             out['tmle'] = {'rd': float(tm.risk_difference), 'rr': float(tm.risk_ratio), 'or': float(tm.odds_ratio)}
@@ -121,8 +155,9 @@ def run_case(df, meta):
         out['tmle_eps'] = [float(x) for x in pr['epsilon']]
 
     guard('IPTW', iptw)
-    guard('TimeFixedGFormula', gform)
-    guard('AIPTW', aiptw)
+    if not miss:
+        guard('TimeFixedGFormula', gform)
+        guard('AIPTW', aiptw)
     guard('TMLE', tmle)
     return out
 
@@ -148,7 +183,11 @@ def build_expr(out, meta):
             for _, t in TARGETS:
                 for a in ('true', 'false'):
                     lst.append('iptw_mu %s %s %s 1 1 %s l' % (stab, t, qlit(nn), a))
-        parts.append('let l := %s in Qflat [%s]' % (ec.coq_rows(S, A, Y, g1=g), '; '.join(lst)))
+        mm = None
+        if 'iptw_m' in out:
+            mm, okm = ec.snap_vec(out['iptw_m'], n)
+            snaps_ok &= okm
+        parts.append('let l := %s in Qflat [%s]' % (ec.coq_rows(S, A, Y, g1=g, m1=mm, m0=mm), '; '.join(lst)))
     else:
         parts.append('(@nil (list Z))')
     if 'gf_q1' in out and 'gf_q0' in out:
@@ -260,7 +299,14 @@ def run(ctx):
     cases = []
     for i in range(n):
         otype = ['binary', 'normal', 'poisson'][i % 3]
-        df, meta = datagen.cat_frame(ctx.rng, outcome=otype)
+        if i % 6 == 4 and otype != 'poisson':
+            # missing outcomes with a saturated missing-outcome model: IPTW and TMLE only (the g-formula and AIPTW
+            # standardise over the rows with an observed outcome, which is not the `std` of all rows)
+            df, meta = datagen.cat_frame(ctx.rng, outcome=otype, cell=(4, 7))
+            df = datagen.add_missing(ctx.rng, df, otype == 'binary')
+            meta['missing'] = True
+        else:
+            df, meta = datagen.cat_frame(ctx.rng, outcome=otype)
         # the caller's row labels are not part of the data: default, permuted, gappy (a subset of a cohort), shifted, strings
         df, kind = datagen.reindex(df, ctx.rng, kind=['range', 'shuffle', 'gappy', 'shift', 'str'][(i // 3) % 5])
         meta['index'] = kind
@@ -292,6 +338,8 @@ def run_cases(ctx, fails, cases):
         ctx.count('covariates:%d' % meta['n_cov'])
         ctx.count('strata:%d' % meta['n_strata'])
         ctx.count('index:' + meta.get('index', 'range'))
+        ctx.count('missing outcomes + saturated missing model: %s' % bool(meta.get('missing')))
+        ctx.count('displays/diagnostics/plots called around fit(): %s' % out.get('poked'))
         ctx.nontriv([meta, df['Y'].tolist(), df['A'].tolist()])
         ctx.sample({'n': meta['n'], 'arities': meta['arities'], 'outcome': meta['outcome'],
                     'iptw_population_unstab': out.get('iptw', {}).get((False, 'population')),
